@@ -781,6 +781,15 @@ func (g *gen) expr(kind string, depth int) any {
 			k := pick(g.t, []string{"int", "num", "str", "any", "list", "map"}, "eqkind")
 			return g.call(pick(g.t, []string{"equal", "eq", "==", "neq", "!="}, "n"), k, 2, 3, depth)
 		case 1, 2:
+			if rapid.IntRange(0, 7).Draw(g.t, "bigcmp") == 0 {
+				// neighbours beyond 2^53: as integers they are in order, as floats they are equal
+				bigs := []any{int64(1 << 53), int64(1<<53 + 1), int64(1<<53 + 2), int64(-(1 << 53) - 1), int64(-(1 << 53)), int64(1<<60 + 1), int64(1 << 60)}
+				out := []any{pick(g.t, []string{"gt", ">", "gte", ">=", "lt", "<", "lte", "<="}, "n")}
+				for i, n := 0, rapid.IntRange(2, 3).Draw(g.t, "nbig"); i < n; i++ {
+					out = append(out, pick(g.t, bigs, "big"))
+				}
+				return out
+			}
 			k := pick(g.t, []string{"int", "num", "str"}, "cmpkind")
 			return g.call(pick(g.t, []string{"gt", ">", "gte", ">=", "lt", "<", "lte", "<="}, "n"), k, 2, 3, depth)
 		case 3:
